@@ -2,14 +2,15 @@
 from ._util import q as _q
 
 ID = "C14"
-_MUST = ['selfconc_bool64_paths', 'selfconc_bool64_tree', 'selfconc_boolD_paths', 'selfconc_boolD_tree', 'selfconc_helpers64', 'selfconc_helpersD', 'selfconc_offset_obj', 'selfconc_inflate64', 'selfconc_inflateD', 'selfconc_rect64', 'selfconc_rectlines64', 'selfconc_rectD', 'selfconc_mink64', 'selfconc_minkD', 'selfconc_util64', 'selfconc_utilD', 'selfconc_export64', 'selfconc_exportD', 'selfconc_reuse', 'selfconc_reuse_shared', 'rounds_T2', 'rounds_T16', 'rounds_mode0', 'rounds_mode1', 'rounds_mode2', 'rounds_mode3']
+_MUST = ['static_storage_bytes_guarded', 'selfconc_bool64_paths', 'selfconc_bool64_tree', 'selfconc_boolD_paths', 'selfconc_boolD_tree', 'selfconc_helpers64', 'selfconc_helpersD', 'selfconc_offset_obj', 'selfconc_inflate64', 'selfconc_inflateD', 'selfconc_rect64', 'selfconc_rectlines64', 'selfconc_rectD', 'selfconc_mink64', 'selfconc_minkD', 'selfconc_util64', 'selfconc_utilD', 'selfconc_export64', 'selfconc_exportD', 'selfconc_reuse', 'selfconc_reuse_shared', 'rounds_T2', 'rounds_T16', 'rounds_mode0', 'rounds_mode1', 'rounds_mode2', 'rounds_mode3']
 PROP = {
     "level": "exploration",
     "level_text": ("Exploration of schedules: the ThreadSanitizer build runs rounds of 2/4/8/16 threads, each thread executing a script "
                    "of 10-24 operations drawn from all 19 entry-point families on its own objects (lock-step identical scripts, varied "
                    "scripts, clippers sharing one read-only ReuseableDataContainer64, and lock-step same-family/different-data rounds incl. delta-callback offset storms), with random yields; any TSan report and any "
                    "difference between a thread's result hash and the sequential run of the same script is a violation. TSan generalises "
-                   "over schedules with the same synchronisation order, not over all schedules."),
+                   "over schedules with the same synchronisation order, not over all schedules. The first sentence of the property (no mutable state outside the caller's objects) is monitored directly too: "
+                   "in a plain build every operation of all 19 families runs behind a write barrier on the image's static storage (.data/.bss mapped read-only, SIGSEGV handler records the store), and the image must have no thread-local segment."),
     "level_note": "trusted base: gcc ThreadSanitizer (happens-before + lockset hybrid), __tsan_on_report hook; races in code no two threads executed concurrently in any round are not observable; the run is inconclusive unless every family was observed running concurrently with itself",
     "technique": "runtime monitoring: ThreadSanitizer stress rounds + sequential-equivalence hashes, co-running matrix as evidence",
     "rule": ("a case is one round (T threads x nops operations); T cycles 2,4,8,16, mode cycles identical-lock-step / varied / shared "
@@ -19,5 +20,7 @@ PROP = {
     "must_count": _q(_MUST, _MUST),
     "jobs": [
         {"mon": "mon_c14", "cfg": "tsan", "cases": _q(256, 6400), "shards": 8},
+        # write barrier on the static storage of the image while library operations run (single-threaded, plain build)
+        {"mon": "mon_c14s", "cfg": "plain", "cases": _q(60000, 2000000), "cxxflags": ["-rdynamic", "-Wl,-z,now", "-ldl"], "seed_off": 7},
     ],
 }
